@@ -12,6 +12,7 @@ import (
 	"net/url"
 	"os"
 	"reflect"
+	"strings"
 	"syscall"
 
 	"github.com/flamego/flamego"
@@ -20,9 +21,10 @@ import (
 
 // retCase: one handler returning values of one supported shape, somewhere in a chain (C14).
 type retCase struct {
-	Env      string `json:"env,omitempty"`                             // process environment while the case runs (the runner sets it per phase): the table does not depend on it
-	AsAction bool   `json:"returning_handler_is_the_action,omitempty"` // the returning handler is installed with Flame.Action (the tail of every chain) instead of as the route's last-but-one handler: what it returns is rendered by the same table
-	Battery  bool   `json:"built_in_middleware_in_front,omitempty"`    // Logger, Recovery and Renderer are installed ahead of everything: a returned value is rendered by the same table
+	Env      string `json:"env,omitempty"`                                       // process environment while the case runs (the runner sets it per phase): the table does not depend on it
+	PreHdr   string `json:"response_header_set_by_an_earlier_handler,omitempty"` // one "Name: value" line an earlier handler puts into the response header map (Location, Status, Refresh ...): the status comes from the table, not from what the header map holds
+	AsAction bool   `json:"returning_handler_is_the_action,omitempty"`           // the returning handler is installed with Flame.Action (the tail of every chain) instead of as the route's last-but-one handler: what it returns is rendered by the same table
+	Battery  bool   `json:"built_in_middleware_in_front,omitempty"`              // Logger, Recovery and Renderer are installed ahead of everything: a returned value is rendered by the same table
 	Shape    string `json:"shape"`
 	Int      int    `json:"int,omitempty"`
 	Str      core.B `json:"str,omitempty"`
@@ -68,6 +70,18 @@ type c14Named string
 
 // String-kind and byte-slice-kind result types that also know how to present themselves. What a handler returns
 // is its value; how the type would print itself is nobody's business here.
+// c14APIFunc: a named function type with a signature of its own and a ServeHTTP method on top (the usual
+// "handler that returns an error" adapter). Registered as a handler it is a function.
+type c14APIFunc func(http.ResponseWriter, *http.Request) error
+
+func (f c14APIFunc) ServeHTTP(w http.ResponseWriter, r *http.Request) {
+	if err := f(w, r); err != nil {
+		http.Error(w, "adapter: "+err.Error(), http.StatusBadGateway)
+	} else {
+		w.WriteHeader(http.StatusNotImplemented)
+	}
+}
+
 // c14Status: a named integer type (the way applications name their status codes). An integer by kind.
 type c14Status int
 
@@ -571,12 +585,20 @@ func judgeRet(w *core.W, c *retCase) {
 			ctx.MapTo(bracket, (*http.ResponseWriter)(nil))
 		})
 	}
+	if k, v, ok := strings.Cut(c.PreHdr, ": "); ok {
+		hs = append(hs, func(ctx flamego.Context) { ctx.ResponseWriter().Header().Set(k, v) })
+		w.Count("response-header-preset")
+	}
 	for i := 0; i < c.Pos; i++ {
 		switch {
 		case !c.PreRet:
 			hs = append(hs, func() { pre++ })
 		case i%3 == 0:
 			hs = append(hs, func() string { pre++; return "" })
+		case i%3 == 1 && len(c.Str)%2 == 0:
+			// a silent handler of a named function type that also has a ServeHTTP method (an adapter type): it is a
+			// function with its own signature and is invoked as such
+			hs = append(hs, c14APIFunc(func(http.ResponseWriter, *http.Request) error { pre++; return nil }))
 		case i%3 == 1:
 			hs = append(hs, func() error { pre++; return nil })
 		default:
@@ -766,6 +788,9 @@ func runC14(r *core.Run) {
 			c := genRetCase(rng)
 			c.Env, c.Battery = env, rng.Intn(3) == 0
 			c.AsAction = rng.Intn(8) == 0 && c.Custom != "request-late" && c.Custom != "self"
+			if rng.Intn(5) == 0 {
+				c.PreHdr = []string{"Location: /elsewhere", "Location: http://example.com/", "Status: 404 Not Found", "Refresh: 0; url=/x", "Content-Location: /y", "X-Accel-Redirect: /internal", "Content-Type: application/json", "Retry-After: 10", "WWW-Authenticate: Basic", "Content-Length: 0"}[rng.Intn(10)]
+			}
 			w.Begin("ret", c)
 			judgeRet(w, c)
 		})
